@@ -17,7 +17,7 @@
 @ba1 = global i8* blockaddress(@f3, %2)
 @tl = thread_local(initialexec) global i32 0, align 4
 @ext = external global i32
-@wk = weak global i32 0, section "mysec", align 16
+@wk = weak global i32 0, section "my\5Csec", align 16
 
 @al0 = alias i32, i32* @b
 @al1 = internal alias i32, i32* @al0
